@@ -1,14 +1,108 @@
-//! placeholder, filled in later
+//! C09, pure half: the contract's derivation of the ibc-hooks intermediate account against the
+//! simulator's independent implementation of the Osmosis recipe, input by input; plus
+//! unambiguity of "<channel>/<sender>" for every channel id the configuration validation accepts.
+//! (The system half — genuine deliveries accepted, impostors refused — lives in the engine.)
+
+use crate::engine::Violation;
 use crate::run::Eval;
+use crate::util::*;
 use serde::{Deserialize, Serialize};
 
 #[derive(Serialize, Deserialize, Clone, Debug, PartialEq)]
-pub struct HCase {}
-
-pub fn eval(_c: &HCase) -> Eval {
-    Eval::default()
+pub struct HCase {
+    pub pairs: Vec<(String, String)>,
+    pub prefix: String,
+    pub channel_candidates: Vec<String>,
 }
 
-pub fn gen(_seed: u64) -> HCase {
-    HCase {}
+pub fn gen(seed: u64) -> HCase {
+    let mut rng = Rng::new(seed);
+    let prefix = rng.pick(&["osmo", "milk", "init", "a", "celestia", "x1y"]).to_string();
+    let mut pairs = vec![];
+    for _ in 0..rng.range(2, 8) {
+        let ch = match rng.below(6) {
+            0 => "channel-0".to_string(),
+            1 => format!("channel-{}", rng.below(100)),
+            2 => format!("channel-{}", rng.next_u64()),
+            3 => format!("channel-{}", u64::MAX),
+            4 => format!("channel-0{}", rng.below(10)),
+            _ => format!("channel-{}", rng.below(5)),
+        };
+        let np = rng.pick(&["celestia", "init", "osmo", "cosmos"]).to_string();
+        let n = if rng.chance(1, 4) { 32 } else { 20 };
+        let sender = b32_encode(&np, &rng.bytes(n));
+        pairs.push((ch, sender));
+    }
+    // near-duplicates: same sender over neighbouring channels, same channel with neighbouring senders
+    if let Some((c, s)) = pairs.first().cloned() {
+        pairs.push((format!("{}1", c), s.clone()));
+        pairs.push((c, s));
+    }
+    let channel_candidates = vec![
+        "channel-1".into(),
+        "channel-1/".into(),
+        "channel-1/x".into(),
+        "channel-".into(),
+        "channel-+1".into(),
+        "channel- 1".into(),
+        "channel-1 ".into(),
+        "Channel-1".into(),
+        "channel-1e3".into(),
+        format!("channel-{}", rng.next_u64()),
+        "channel-18446744073709551616".into(),
+        "channel-0x10".into(),
+        "channel--1".into(),
+        "connection-1".into(),
+        "".into(),
+    ];
+    HCase { pairs, prefix, channel_candidates }
+}
+
+pub fn eval(c: &HCase) -> Eval {
+    let mut ev = Eval::default();
+    let mut h = Fnv::default();
+    let mut seen: std::collections::BTreeMap<String, (String, String)> = Default::default();
+    for (i, (ch, sender)) in c.pairs.iter().enumerate() {
+        ev.stats.ops += 1;
+        let want = hooks_intermediate_sender(ch, sender, &c.prefix);
+        let r = crate::host::guarded(|| staking::helpers::derive_intermediate_sender(ch, sender, &c.prefix));
+        match r {
+            crate::host::Guarded::Done(Ok(got)) => {
+                if got != want {
+                    ev.viol.push(Violation { prop: "C09", clause: "derivation_matches_ibc_hooks", step: i + 1, msg: format!("derive({}, {}, {}) = {} but ibc-hooks derives {}", ch, sender, c.prefix, got, want) });
+                }
+                if let Some(prev) = seen.get(&got) {
+                    if *prev != (ch.clone(), sender.clone()) {
+                        ev.viol.push(Violation { prop: "C09", clause: "no_collision", step: i + 1, msg: format!("{:?} and {:?} both map to {}", prev, (ch, sender), got) });
+                    }
+                }
+                seen.insert(got.clone(), (ch.clone(), sender.clone()));
+                h.str(&got);
+            }
+            crate::host::Guarded::Done(Err(e)) => ev.viol.push(Violation { prop: "C09", clause: "derivation_matches_ibc_hooks", step: i + 1, msg: format!("derive({}, {}, {}) failed: {:?}", ch, sender, c.prefix, e) }),
+            _ => ev.viol.push(Violation { prop: "C16", clause: "panic", step: i + 1, msg: "derive_intermediate_sender panicked".into() }),
+        }
+    }
+    // channel ids accepted by validation never contain the separator, so "<channel>/<sender>" splits uniquely
+    for (i, ch) in c.channel_candidates.iter().enumerate() {
+        let cfg = staking::types::UnsafeProtocolChainConfig {
+            account_address_prefix: "osmo".into(),
+            ibc_token_denom: format!("ibc/{}", "A".repeat(64)),
+            ibc_channel_id: ch.clone(),
+            minimum_liquid_stake_amount: cosmwasm_std::Uint128::new(1),
+            oracle_address: None,
+        };
+        let r = crate::host::guarded(|| cfg.validate().is_ok());
+        if let crate::host::Guarded::Done(true) = r {
+            ev.stats.probe("channel_candidate_accepted");
+            if ch.contains('/') || !ch.starts_with("channel-") {
+                ev.viol.push(Violation { prop: "C09", clause: "channel_format_unambiguous", step: 100 + i, msg: format!("channel id {:?} accepted by validation", ch) });
+            }
+        }
+        h.str(ch);
+    }
+    ev.hash = h.0;
+    ev.nontrivial = c.pairs.len() >= 2;
+    ev.stats.tx_ok = c.pairs.len() as u64;
+    ev
 }
